@@ -132,7 +132,7 @@ func (x *Exec) autoInvariant(st *State, fn *ssa.Function, l *Loop) string {
 		lv, ok2 := fr.Regs[l.RangeLen]
 		if ok1 && ok2 {
 			idx := x.load(st, pv, false)
-			return fmt.Sprintf("(and (<= (- 1) %s) (< %s (ite (> %s 0) %s 1)))", idx.Term, idx.Term, lv.Term, lv.Term)
+			return fmt.Sprintf("(and (<= (- 1) %s) (< %s (ite (> %s 0) %s 0)))", idx.Term, idx.Term, lv.Term, lv.Term)
 		}
 	}
 	return "true"
@@ -287,9 +287,9 @@ func (x *Exec) havocLoop(st *State, fn *ssa.Function, l *Loop, lc *LoopContract)
 						arrays[n] = "(Array Int " + vs + ")"
 					}
 				} else if arr, ok := types.Unalias(el).Underlying().(*types.Array); ok {
-					x.noteElem(arrays, x.TM.Sort(arr.Elem()))
+					x.noteElem(arrays, x.TM.Key(arr.Elem()))
 				} else {
-					x.noteCell(arrays, x.TM.Sort(el))
+					x.noteCell(arrays, x.TM.Key(el))
 				}
 			}
 		}
@@ -317,7 +317,7 @@ func (x *Exec) havocLoop(st *State, fn *ssa.Function, l *Loop, lc *LoopContract)
 					x.noteMap(arrays, ks, vs)
 				case *ssa.MakeSlice:
 					et := ins.Type().Underlying().(*types.Slice).Elem()
-					x.noteElem(arrays, x.TM.Sort(et))
+					x.noteElem(arrays, x.TM.Key(et))
 				case *ssa.Alloc:
 					if ins.Heap {
 						el := ins.Type().(*types.Pointer).Elem()
@@ -327,9 +327,9 @@ func (x *Exec) havocLoop(st *State, fn *ssa.Function, l *Loop, lc *LoopContract)
 								arrays[n] = "(Array Int " + vs + ")"
 							}
 						} else if arr, ok := types.Unalias(el).Underlying().(*types.Array); ok {
-							x.noteElem(arrays, x.TM.Sort(arr.Elem()))
+							x.noteElem(arrays, x.TM.Key(arr.Elem()))
 						} else {
-							x.noteCell(arrays, x.TM.Sort(el))
+							x.noteCell(arrays, x.TM.Key(el))
 						}
 					}
 				case ssa.CallInstruction:
@@ -350,13 +350,13 @@ func (x *Exec) havocLoop(st *State, fn *ssa.Function, l *Loop, lc *LoopContract)
 						switch bi.Name() {
 						case "append":
 							et := types.Unalias(cc.Args[0].Type()).Underlying().(*types.Slice).Elem()
-							x.noteElem(arrays, x.TM.Sort(et))
+							x.noteElem(arrays, x.TM.Key(et))
 						case "delete":
 							ks, vs, _ := x.mapSorts(cc.Args[0].Type())
 							x.noteMap(arrays, ks, vs)
 						case "copy":
 							if sl, ok := types.Unalias(cc.Args[0].Type()).Underlying().(*types.Slice); ok {
-								x.noteElem(arrays, x.TM.Sort(sl.Elem()))
+								x.noteElem(arrays, x.TM.Key(sl.Elem()))
 							}
 						}
 						continue
@@ -392,7 +392,7 @@ func (x *Exec) havocLoop(st *State, fn *ssa.Function, l *Loop, lc *LoopContract)
 					// string -> []byte conversions etc. allocate in E.Int; handled via Convert below
 				case *ssa.Convert:
 					if _, ok := types.Unalias(ins.Type()).Underlying().(*types.Slice); ok {
-						x.noteElem(arrays, SInt)
+						x.noteElem(arrays, x.TM.Key(types.Typ[types.Uint8]))
 					}
 				}
 			}
@@ -534,9 +534,9 @@ func (x *Exec) noteModArrays(callee *ssa.Function, fc *FuncContract, ms string, 
 func (x *Exec) elemSortOfIndexAddr(a *ssa.IndexAddr) string {
 	switch u := types.Unalias(a.X.Type()).Underlying().(type) {
 	case *types.Slice:
-		return x.TM.Sort(u.Elem())
+		return x.TM.Key(u.Elem())
 	case *types.Pointer:
-		return x.TM.Sort(types.Unalias(u.Elem()).Underlying().(*types.Array).Elem())
+		return x.TM.Key(types.Unalias(u.Elem()).Underlying().(*types.Array).Elem())
 	}
 	return SInt
 }
@@ -560,10 +560,10 @@ func (x *Exec) arraySortFull(arr string) string {
 var _ = token.ADD
 
 func (x *Exec) noteElem(arrays map[string]string, es string) {
-	arrays[x.TM.ElemArray(es)] = fmt.Sprintf("(Array Int (Array Int %s))", es)
+	arrays[x.TM.ElemArray(es)] = fmt.Sprintf("(Array Int (Array Int %s))", ksort(es))
 }
 func (x *Exec) noteCell(arrays map[string]string, s string) {
-	arrays[x.TM.CellArray(s)] = fmt.Sprintf("(Array Int %s)", s)
+	arrays[x.TM.CellArray(s)] = fmt.Sprintf("(Array Int %s)", ksort(s))
 }
 func (x *Exec) noteMap(arrays map[string]string, ks, vs string) {
 	arrays[x.TM.MapHas(ks, vs)] = fmt.Sprintf("(Array Int (Array %s Bool))", ks)
@@ -590,8 +590,8 @@ func (x *Exec) noteObjectArrays(t types.Type, arrays map[string]string) {
 		return
 	}
 	if arr, ok := types.Unalias(t).Underlying().(*types.Array); ok {
-		x.noteElem(arrays, x.TM.Sort(arr.Elem()))
+		x.noteElem(arrays, x.TM.Key(arr.Elem()))
 		return
 	}
-	x.noteCell(arrays, x.TM.Sort(t))
+	x.noteCell(arrays, x.TM.Key(t))
 }
